@@ -1255,3 +1255,84 @@ def full_rehash_covers_every_input():
                 ret == "(step_hash, inp_result.new_hashes, out_result.new_hashes)" and len(res) == 1
                 and ast.unparse(res[0].value) == "result", f"return {ret}"))
     return out
+
+
+# ---------------------------------------------------------------- Executor._new_run: the refusal at launch
+
+HUC = common.enums.HashUpdateCause
+
+
+class _NrWorkflow:
+    def update_file_hashes(self, file_hashes, *, cause):
+        _ev("nr.update_file_hashes", hashes=file_hashes, cause=cause)
+
+
+def _cis_stub(self, run, inp_hashes, env_deps):
+    c = cur()
+    changed = FileMap.fresh(c.fresh_name("changed_inputs"))
+    _ev("nr.input_rehash", run=run, changed=changed)
+    return ty.Opt(StepHashRec2).fresh(c.fresh_name("inp_hash")), changed
+
+
+contract("stepup/core/executor.py::Executor._compute_inp_step_hash", props=[], verify=False, impl=_cis_stub,
+         note="assumed: re-hashes the inputs before the launch; returns the input part of the step hash, or None with "
+              "the inputs whose hash differs from the recorded one (empty when the computation was cancelled)")(
+    type("_cis", (), dict(modifies=[])))
+
+
+def _nr_executor(args):
+    e = _job_executor(args)
+    e._fields["workflow"] = _NrWorkflow()
+    return e
+
+
+def _nr_finish(c, outcome, args, old):
+    """A step whose inputs are not what the database records is refused: the changed hashes are stored (cause FAILED)
+    in a transaction *before* the step is completed as failed -- while it is still RUNNING / CHECKING, so that the
+    follow-ups of the hash update (consumers of a changed static file are made pending) do not take the failure of
+    this very step back (C19: a step reported as failed ends FAILED) -- and the scheduler is drained afterwards
+    (C03).  Without changed inputs (a cancelled computation) the step is only completed as failed."""
+    if outcome[0] != "return":
+        return
+    from vc import vcrt
+
+    t = c.trace
+    res = outcome[1]
+    upd = [e for e in t if e.kind == "nr.update_file_hashes"]
+    fin = [e for e in t if e.kind == "call" and e.callee.endswith("_finalize_failed_run")] + [e for e in t if e.kind == "finalize_failed_run"]
+    drains = [e for e in t if e.kind == "drain"]
+    rehash = [e for e in t if e.kind == "nr.input_rehash"]
+    c.prove("inputs_are_rehashed_once_first", tm.mk_bool(len(rehash) == 1 and all(e.index > rehash[0].index for e in upd + fin + drains)), kind="post")
+    h = res[1]
+    if h is not None:
+        c.prove("a_run_with_a_hash_touches_nothing", tm.mk_bool(not upd and not fin and not drains), kind="post")
+        return
+    c.prove("refused_run_is_completed_as_failed_once", tm.mk_bool(len(fin) == 1), kind="post")
+    if len(fin) != 1:
+        return
+    if upd:
+        ok = (len(upd) == 1 and upd[0].cause is HUC.FAILED and upd[0].index < fin[0].index and _in_one_span(t, upd)
+              and len(drains) == 1 and drains[0].index > fin[0].index)
+        c.prove("changed_hashes_stored_before_the_completion_then_drained", tm.mk_bool(ok), kind="post")
+    if rehash:
+        some = tm.Gt(I(vcrt.v_len(rehash[0].changed)), tm.mk_int(0))
+        c.prove("hashes_stored_and_scheduler_drained_iff_inputs_changed", tm.And(
+            tm.Iff(tm.mk_bool(len(upd) == 1), some), tm.Iff(tm.mk_bool(len(drains) == 1), some),
+            tm.mk_bool(not upd or upd[0].hashes is rehash[0].changed)), kind="post")
+
+
+_nr = engine.REGISTRY["stepup/core/executor.py::Executor._new_run"]
+_nr.verify = True
+_nr.props = ["C03", "C19", "C05"]
+_nr.note = ""
+_nr.args = dict(self=_nr_executor, job_i=ty.Int, step=ty.Make(_StepStub), inp_hashes=FileMap, env_deps=lambda a: [])
+_nr.finish = _nr_finish
+
+
+def _nr_run(step, job_i=None):
+    run = _RunStub(cur().fresh_name("run"))
+    run._fields["step"] = step
+    return run
+
+
+_nr.env = dict(Run=_nr_run)
